@@ -118,6 +118,236 @@ def fmt_form(f):
     return " ".join("%+d*%s" % (c, k) if k != "1" else "%+d" % c for k, c in f) + " >= 0"
 
 
+# ------------------------------------------------------------------------------------------------
+# R16.4: the class invariant of the reassembler, proved inductively with a small relational domain (analysis/fm.py)
+
+U64 = (1 << 64) - 1
+ISZ = (1 << 63) - 1
+
+
+def named_lin(t):
+    """linear form {name: coef, 1: const} of a tree with the leaves renamed to the reassembler's quantities"""
+    d = lin(t)
+    out = {}
+    for k, v in d.items():
+        n = leaf_name(k)
+        out[n] = out.get(n, 0) + v
+    return {k: v for k, v in out.items() if v != 0}
+
+
+def minus(a, b):
+    out = dict(a)
+    for k, v in b.items():
+        out[k] = out.get(k, 0) - v
+    return {k: v for k, v in out.items() if v != 0}
+
+
+def _len_of_base(t):
+    r = repr(t)
+    if "top:data" in r:
+        return {"L": 1}
+    if "dec.buffer" in r or "havoc:index_mut" in r or "havoc:copy_from_slice" in r:
+        return {"B": 1}
+    return None
+
+
+def _slice_extent(t):
+    """(lo, hi) linear forms of an index node (fn, base, range) relative to its base, plus len(base)"""
+    if isinstance(t, tuple) and len(t) == 2 and t[1] == ".*":
+        t = t[0]
+    if not (isinstance(t, tuple) and len(t) == 3 and isinstance(t[0], str) and t[0].endswith(("index", "index_mut"))):
+        return None
+    bl = _len_of_base(t[1])
+    r = t[2]
+    if bl is None or not isinstance(r, tuple):
+        return None
+    if r[0] == "Range":
+        return named_lin(r[1]), named_lin(r[2]), bl
+    if r[0] == "RangeTo":
+        return {}, named_lin(r[1]), bl
+    if r[0] == "RangeFrom":
+        return named_lin(r[1]), bl, bl
+    return None
+
+
+def arith_obligations(t, out, depth=0):
+    """no usize underflow / overflow in the arithmetic of a tree"""
+    if not isinstance(t, tuple) or depth > 14:
+        return
+    if t and t[0] == "op:Sub" and len(t) == 3:
+        out.append(("%s does not underflow" % show(t)[:70], minus(named_lin(t[1]), named_lin(t[2]))))
+    if t and t[0] == "op:Add" and len(t) == 3:
+        g = minus({1: U64}, named_lin(t))
+        out.append(("%s does not overflow" % show(t)[:70], g))
+    for x in t:
+        arith_obligations(x, out, depth + 1)
+
+
+def inv(known, c="c", e="E"):
+    """the class invariant as constraints (>= 0): 20 <= B <= isize::MAX; None: c < 20; Some(E): c < E <= B"""
+    f = [{"B": 1, 1: -20}, {"B": -1, 1: ISZ}]
+    if known == "Some":
+        f += [{e: 1, c: -1, 1: -1}, {"B": 1, e: -1}]
+    else:
+        f += [{c: -1, 1: 19}]
+    return f
+
+
+def r16_4_invariant(ctx, prog, rule="R16.4"):
+    from .. import fm
+    ctx.rule(rule, "class invariant of the reassembler, by induction over calls: Inv = (20 <= buffer.len(); expected = None => "
+                   "current_size < 20; expected = Some(E) => current_size < E <= buffer.len()).  new() establishes it; every "
+                   "path of decode that returns a decoder re-establishes it; and under Inv plus the comparisons decided so far "
+                   "on the path, every slice range lies within its slice, every copy has equal lengths, the header slice is "
+                   "exactly 20 bytes, every packet size is within the buffer and no usize arithmetic wraps (linear "
+                   "implications decided by Fourier-Motzkin elimination, analysis/fm.py).  Only new() builds a decoder and "
+                   "only decode() writes its fields")
+    nonneg = [{v: 1} for v in ("c", "E", "L", "m", "B")]
+    bounds = nonneg + [{"L": -1, 1: ISZ}, {"m": -1, 1: 65535}]
+    # --- establishment
+    paths, info = C.explore_fn(prog, DEC + "::new", "x", [r"\{closure"])
+    for pa in paths:
+        r = C.expr_of(pa, pa.ret)
+        if not (isinstance(r, tuple) and r[0] == "Result::Ok"):
+            continue
+        facts = list(bounds) + [{"B": -1, 1: ISZ}]
+        for g in pa.guards():
+            f = guard_form((g[0], _rename_new(g[1]), _rename_new(g[2]), g[3]))
+            if f is not None:
+                facts.append({(1 if k == "1" else k): v for k, v in f})
+        ok = r[1] == ("StunPacketDecoder", "top:buffer", 0, "Option::None")
+        post = [x for x in inv("None", c="c0")]
+        facts.append({"c0": 1})
+        facts.append({"c0": -1})          # c0 == 0
+        proved = ok and all(fm.entails(facts, g) for g in post)
+        ctx.ob(rule, "established-by-new", proved, "new() returns %s; Inv follows from its length test: %s" % (show(r[1])[:80], proved), info["where"])
+    # --- preservation and safety on every path of decode
+    paths, info = C.explore_fn(prog, DEC + "::decode", "dec", [r"\{closure"])
+    n_obl = 0
+    for pa in paths:
+        known = pa.choice(r"^variant\(dec\.expected_size\)$")
+        facts = list(bounds) + inv(known)
+        failed = []
+        cmps = {}
+        nob = 0
+
+        def prove(what, goal):
+            nonlocal nob
+            nob += 1
+            if not fm.entails(facts, goal):
+                failed.append(what)
+
+        def prove_eq(what, a):
+            nonlocal nob
+            nob += 1
+            if not fm.entails_eq(facts, a):
+                failed.append(what)
+        for e in pa.log:
+            if e[0] == "cmp":
+                a, b = C.expr_of(pa, e[3]), C.expr_of(pa, e[4])
+                cmps[e[1]] = (e[2], a, b)
+                obs = []
+                arith_obligations(a, obs)
+                arith_obligations(b, obs)
+                for w, g in obs:
+                    prove(w, g)
+            elif e[0] == "choice" and e[1] in cmps:
+                op, a, b = cmps[e[1]]
+                f = guard_form((op, a, b, e[2]))
+                if f is not None:
+                    facts.append({(1 if k == "1" else k): v for k, v in f})
+            elif e[0] == "call":
+                args = C.expr_of(pa, e[2])
+                nm = C.short(e[1])
+                obs = []
+                for a in args:
+                    arith_obligations(a, obs)
+                for w, g in obs:
+                    prove(w, g)
+                if re.search(r"::index(_mut)?$", e[1]):
+                    ext = _slice_extent((nm,) + tuple(args))
+                    if ext is None:
+                        failed.append("%s: unrecognised slice expression %s" % (nm, show(args)[:80]))
+                        continue
+                    lo, hi, ln = ext
+                    prove("%s: start <= end in %s" % (nm, show(args[1])[:60]), minus(hi, lo))
+                    prove("%s: end <= len in %s" % (nm, show(args[1])[:60]), minus(ln, hi))
+                elif re.search(r"copy_from_slice$|clone_from_slice$", e[1]):
+                    d, s_ = _slice_extent(args[0]), _slice_extent(args[1])
+                    if d is None or s_ is None:
+                        failed.append("%s: operands are not sub-slices" % nm)
+                        continue
+                    prove_eq("%s: equal lengths" % nm, minus(minus(d[1], d[0]), minus(s_[1], s_[0])))
+                elif re.search(r"TryInto<.*>>::try_into$|try_into$", e[1]):
+                    x = _slice_extent(args[0])
+                    if x is None:
+                        failed.append("try_into on an unrecognised slice")
+                        continue
+                    prove_eq("header slice is exactly 20 bytes", minus(minus(x[1], x[0]), {1: 20}))
+                elif re.search(r"StunPacket::new$", e[1]):
+                    prove("packet size <= buffer.len()", minus({"B": 1}, named_lin(args[1])))
+                elif re.search(r"Vec::<.*>::(push|resize\w*|truncate|clear|pop|insert|remove|extend\w*|append|drain|split_off|shrink\w*|reserve\w*|set_len)$", e[1]) \
+                        and "buffer" in repr(args[:1]):
+                    failed.append("the buffer's length is changed by %s" % nm)
+            elif e[0] in ("write", "write-elem"):
+                obs = []
+                arith_obligations(C.expr_of(pa, e[3]) if len(e) > 3 else None, obs)
+                for w, g in obs:
+                    prove(w, g)
+        r = C.expr_of(pa, pa.ret)
+        obs = []
+        arith_obligations(r, obs)
+        for w, g in obs:
+            prove(w, g)
+        kind = r[1][0].split("::")[-1] if isinstance(r, tuple) and r[0] == "Result::Ok" else "Err"
+        if kind == "MoreBytesNeeded":
+            st = r[1][1][1]
+            if not (isinstance(st, tuple) and st[0] == "StunPacketDecoder" and len(st) == 4 and ("buffer" in repr(st[1]) or "havoc:index_mut" in repr(st[1]) or "havoc:copy_from_slice" in repr(st[1]))):
+                failed.append("the returned decoder is not built from this decoder's buffer")
+            else:
+                cur, exp = named_lin(st[2]), st[3]
+                if exp == "Option::None":
+                    prove("Inv': current_size' < 20", minus({1: 19}, cur))
+                elif isinstance(exp, tuple) and exp[0] == "Option::Some":
+                    ev = named_lin(exp[1])
+                    prove("Inv': current_size' < expected'", minus(minus(ev, cur), {1: 1}))
+                    prove("Inv': expected' <= buffer.len()", minus({"B": 1}, ev))
+                else:
+                    failed.append("expected_size' is %s" % show(exp)[:40])
+        n_obl += nob
+        key = "expected=%s,%s" % (known, "%s:%s" % (kind, r[1][1][2] if kind == "MoreBytesNeeded" and r[1][1][2] == "Option::None" else "") if kind == "MoreBytesNeeded" else
+                                  (kind if kind != "Err" else "Err:" + str(r[1][1]).split("::")[-1]))
+        ctx.ob(rule, "path:%s" % key, not failed, ("NOT proved: " + "; ".join(failed[:3])) if failed else
+               "%d obligations (ranges, copy lengths, arithmetic%s) follow from Inv and the path's comparisons" % (nob, ", Inv'" if kind == "MoreBytesNeeded" else ""),
+               info["where"], replay=None if not failed else pa.describe())
+    ctx.floor(rule, "decode paths", len(paths), 7)
+    ctx.floor(rule, "linear obligations proved", n_obl, 40)
+    # --- who builds / writes a decoder
+    builders, writers = set(), set()
+    for b in prog.bodies.values():
+        if b.crate != "stun_agent" or "::tests" in b.path or "_tests::" in b.path or "::test" in b.path.lower().split("::")[-1][:5]:
+            continue
+        for blk in b.blocks:
+            for st in blk["stmts"]:
+                if st["k"] != "assign":
+                    continue
+                rv = st["rv"]
+                if rv["k"] == "aggregate" and rv.get("agg") == "adt" and rv.get("adt") == DEC:
+                    builders.add(b.path)
+                for pe in st["place"]["p"]:
+                    if pe["k"] == "field" and pe.get("adt") == DEC:
+                        writers.add(b.path)
+    okb = builders <= {DEC + "::new"} and writers <= {DEC + "::decode"}
+    ctx.ob(rule, "who-builds-and-writes", okb and bool(builders), "decoders are built in %s; fields are written in %s" % (sorted(builders), sorted(writers)))
+
+
+def _rename_new(t):
+    """in new(): buffer.len() plays the role of B"""
+    if isinstance(t, tuple) and t and isinstance(t[0], str) and t[0].endswith("len") and "top:buffer" in repr(t):
+        return ("Vec::len", "top:dec.buffer")
+    return t
+
+
 def check(ctx, env):
     ctx.explanation = (
         "Static: the seven paths of StunPacketDecoder::decode are explored by abstract interpretation with symbolic "
@@ -259,12 +489,13 @@ def check(ctx, env):
     for pa in paths:
         r = C.expr_of(pa, pa.ret)
         small = None
-        for nme, v in pa.choices:
-            m = re.match(r"cmp:(Lt|Ge):(.*)$", str(nme))
-            if m and "('c', 20)" in m.group(2):
-                small = (v == 1) if m.group(1) == "Lt" else (v == 0)
+        forms = [guard_form((g[0], _rename_new(g[1]), _rename_new(g[2]), g[3])) for g in pa.guards()]
+        if forms == [form(B=-1, one=19)]:
+            small = True                # taken iff buffer.len() <= 19
+        elif forms == [form(B=1, one=-20)]:
+            small = False               # taken iff buffer.len() >= 20
         if small is None:
-            ctx.ob("R16.2", "new:test", False, "new does not compare buffer.len() with 20: %s" % [str(x[0])[:60] for x in pa.choices], info["where"])
+            ctx.ob("R16.2", "new:test", False, "new() does not split exactly at buffer.len() < 20: path taken iff %s" % [fmt_form(f) for f in forms], info["where"])
             continue
         if small:
             ok = isinstance(r, tuple) and r[0] == "Result::Err" and r[1][0] == "StunPacketDecodedError" and "SmallBuffer" in repr(r[1][1]) \
@@ -273,3 +504,7 @@ def check(ctx, env):
             ok = isinstance(r, tuple) and r[0] == "Result::Ok" and r[1] == ("StunPacketDecoder", "top:buffer", 0, "Option::None")
         ctx.ob("R16.2", "new:small=%s" % small, ok, "new -> %s" % show(r)[:160], info["where"])
     ctx.floor("R16.2", "new paths", len(paths), 2)
+    r16_4_invariant(ctx, prog)
+    # "a stream whose next 20 bytes are not a STUN header" is judged by MessageHeader::decode (same rule as C02 R2.10)
+    from . import c02
+    c02.r2_10_header_validation(ctx, prog, rule="R16.5")
